@@ -200,6 +200,7 @@ def main():
         c.build("rel")
         exe_rel = c.compile(os.path.join(HERE, "harness.cpp"), "harness-rel", variant="rel", opt="-O2")
         wd3 = os.path.join(c.scratch, "p3")
+        deadline = max(deadline, time.time() + 300)       # the rel variant may just have been built from scratch
         res3, ok3 = run_items([exe_rel], items, wd3, fast_env(os.path.join(c.scratch, "cache3")),
                               chunk=max(50, len(items) // 16 + 3), per_item_timeout=1.0, deadline=deadline)
         vals3, st3 = judge(c, items, res3, False)
